@@ -18,7 +18,7 @@ CALIB = os.path.join(core.VERIF, "calib", "C06.json")
 KINDS = {
     "vertex_perm": "exact", "triangle_rotation": "exact", "rename": "exact", "boundary_order": "exact",
     "interface_order": "exact", "format_off": "exact", "format_bnd": "exact", "api": "exact", "syntax": "exact",
-    "cond_order": "exact", "mesh_flip": "exact", "local_flips": "exact", "old_ordering": "exact",
+    "cond_order": "exact", "mesh_flip": "exact", "local_flips": "exact", "old_ordering": "exact", "reload": "exact",
     "domain_order": "exact",
     "triangle_order": "asym", "mesh_order": "asym",
     "format_mesh32": "exact32",
@@ -57,8 +57,9 @@ def round32(m):
     return out
 
 def base_model(rng, quick):
-    # excluded on purpose: heads with a non-conductive inclusion - their head matrix is singular on the pinned tree
-    # (condition number 1e16, C10's known finding), so every gain is noise; one such model is replayed below.
+    # heads with a non-conductive inclusion stay out of the random sweep: their head matrix is regular since c10's cavity-wall
+    # repair (2b0b76f), but the EEG sensor projection then depends on the order of the Domains section (known finding,
+    # replayed below together with the former singular-matrix witness, which now agrees to rounding).
     # One-layer heads are regular since the repair of mark_current_barriers (parts of a single mesh are deflated).
     kind = rng.choice(["nested", "nested", "nested", "split", "inclusions"])
     def sig(): return rng.choice([1.0, 0.33, 0.0125, 1.79, 0.2])
@@ -81,7 +82,24 @@ def base_model(rng, quick):
     m["info"]["topology"] = kind
     return m
 
+def bowl_base(rng):
+    """a bowl-shaped conductor (thick hemispherical shell) in air: its only surface is the outermost (EEG) surface and the
+    centre of its bounding box is OUTSIDE the conductor, so the reader has to find an interior point by drawing points"""
+    m = gd.bowl_model(2, rng.choice([1.0, 0.33]), inside_sphere=False)
+    m["info"].update(topology="bowl", kind="bowl")
+    return m
+
+def bowl_sources_sensors(rng, nd=4, ns=12):
+    def up():
+        while True:
+            d = models.random_unit(rng)
+            if d[2] > 0.35: return d
+    dips = [tuple(0.9 * c for c in up()) + models.random_unit(rng) for _ in range(nd)]
+    sens = [tuple(1.03 * c for c in up()) for _ in range(ns)]
+    return dips, sens
+
 def sources_sensors(m, rng, nd=4, ns=12):
+    if m["info"].get("kind") == "bowl": return bowl_sources_sensors(rng, nd, ns)
     c = m["info"].get("src_centre", m["info"].get("centre", (0, 0, 0)))
     pos, mom = models.dipoles_in_ball(rng, nd, c, m["info"]["src_radius"], 0.6)
     sens = models.sensors_on_sphere(rng, ns, m["info"].get("centre", (0, 0, 0)), m["info"]["outer_radius"] * 1.02)
@@ -199,8 +217,9 @@ def main(replay=None):
     else:
         nbase = 10 if quick else 40
         kinds = list(KINDS)
-        for b in range(nbase):
-            m = base_model(rng, quick)
+        for b in range(nbase + 1):
+            # the last base of every run: a non-convex outermost surface (bounding-box centre outside the conductor)
+            m = base_model(rng, quick) if b < nbase else bowl_base(rng)
             dips, sens = sources_sensors(m, rng)
             base_idx = len(runs)
             obs = observation_points(m, rng)
@@ -208,6 +227,12 @@ def main(replay=None):
             ks = kinds
             if calibrate: ks = kinds
             for kind in ks:
+                if kind == "reload":
+                    # the reader draws random points for a surface whose bounding-box centre is outside: the same files
+                    # loaded again (twice) must give the same gain
+                    if m["info"].get("kind") == "bowl":
+                        for _ in range(2): add(len(runs), m, "tri", "1.1", False, dips, sens, kind, base_idx, obs=obs)
+                    continue
                 if kind == "old_ordering":
                     # the other enumeration of the unknowns offered by the library (asserted for nested geometries only)
                     if m["info"].get("kind") == "nested": add(len(runs), m, "tri", "1.1", False, dips, sens, kind, base_idx, old=True, obs=obs)
@@ -227,6 +252,9 @@ def main(replay=None):
         wr = _r.Random(12345); wd, ws = sources_sensors(wm, wr)
         bi = len(runs); add(len(runs), wm, "tri", "1.1", False, wd, ws, "base", None)
         add(len(runs), gd.redescribe(wm, wr, "vertex_perm"), "tri", "1.1", False, wd, ws, "vertex_perm", bi)
+        # known witness: the same head with its Domains section listed in reverse order
+        wv = gd.redescribe(wm, wr, "identity"); wv["domains"] = list(reversed(wv["domains"]))
+        add(len(runs), wv, "tri", "1.1", False, wd, ws, "domain_order", bi)
     rc_, io, err = core.run_harness(hb, [r["hline"] for r in runs], ck.workdir, timeout=1500, env={"OMP_NUM_THREADS": "2"})
     outs = [core.fparse(l) for l in io]
     dist = {}; worst = {}; nontriv = 0
